@@ -70,6 +70,22 @@ FIRST.update({
  "C20a": ("missed", "integ functions kamino.total / kamino.full.c2l / solend.total with all supply components; composition clauses"),
  "C20b": ("missed", "I80F48 integer-range alphabets for adjust_i128; clause no_wrapped_value"),
 })
+NEEDS.update({
+ "C03c": "Kamino reserve whose exchange rate is above 1 (venue interest accrued); deposit through the venue", "C03d": "estimate one above the venue's exact payout and a unit of dust in the pass-through vault",
+ "C08c": "frozen account holding a Kamino position; withdrawal signed by the risk admin", "C08d": "another group's staked settings propagated onto this group's staked bank",
+ "C09e": "Kamino reserve refreshed exactly one slot ago", "C09f": "Kamino bank whose Pyth EMA confidence differs from the spot confidence",
+ "C13c": "staked settings with oracle max age below 10, then permissionless bank creation", "C13d": "Kamino bank created in the paused state with incoherent weights",
+ "C16c": "eight positions of one integration, then a position of another integration", "C16d": "at least four positions, two closed leaving holes, then a position opened in a lower-key bank",
+ "C19c": "emissions pool nearly exhausted when a position claims", "C19d": "permissionless emission payout for an account that never chose a destination",
+})
+FIRST.update({
+ "C03c": ("missed (exit 2: the model's own transitions failed on the state the changed program produced)", "check.py defers model-level failures to the verdict on the real program's traces"),
+ "C09e": ("missed", "kamino driver: reserve slot now / now-1 / now-2 probes; C09 clause position_with_unusable_price_counts_for_nothing"),
+ "C09f": ("missed", "kamino driver: EMA confidence beyond the maximum while the spot confidence is small; same C09 clause"),
+ "C13d": ("missed", "kamino driver creates banks with incoherent weights in every operational state; C13 judges Kamino-tag banks and validates the kamino driver trace"),
+ "C16d": ("missed", "struct driver: open / close orderings over ten banks (holes, then lowest / highest / middle key)"),
+ "C19d": ("missed", "admin driver: permissionless payouts before a destination was chosen (also for a second account)"),
+})
 for d in sorted(os.listdir(os.path.join(ROOT, "seeded"))):
     mp = os.path.join(ROOT, "seeded", d, "meta.json")
     rp = os.path.join(ROOT, "seeded", d, "result.txt")
